@@ -133,6 +133,12 @@ def classify(prop, res, inst):
             rec = dict(base)
             rec.update(kind="compile_crash", detail=f"{cc}: {inst.get('c04_compile_msg')}", summary=f"{inst['op']}{inst['args']} on {res['seed']}: compile raised undocumented {cc}", dedup=f"{res['seed']}|{inst['op']}|compile|{cc}")
             yield rec
+    if prop == "C17" and inst.get("c17") in ("mismatch", "reparse_failed"):
+        det = inst.get("c17_alpha") or inst.get("c17_detail") or ("printed form differs after reparse" if not inst.get("c17_text_equal", True) else "")
+        rec = dict(base)
+        rec.update(kind=inst["c17"], detail=det, behaviour=inst.get("c17_behaviour"), reparsed=inst.get("c17_reparsed"), cex=inst.get("c17_cex"),
+                   summary=f"printed text of {inst['op']}{inst['args']} on {res['seed']}: {inst['c17']}: {str(det)[:200]}", dedup=f"{res['seed']}|{inst['op']}|c17|{str(det)[:40]}")
+        yield rec
     if prop == "C07":
         for b in inst.get("c07_violation", []) or []:
             rec = dict(base)
@@ -195,6 +201,12 @@ def run_property(prop, tier, only_seeds=None, only_ops=None):
                     stats["compiled_" + ("ok" if inst["c04_compile"] == "ok" else "rejected")] += 1
             if prop == "C07":
                 stats["c07_requeried"] += 1 if inst.get("c07_requery") else 0
+            if prop == "C17":
+                stats["c17_" + str(inst.get("c17"))] += 1
+                if inst.get("c17_behaviour"):
+                    stats["c17_solver_" + inst["c17_behaviour"]] += 1
+                if inst.get("c17_behaviour") == "inconclusive":
+                    stats["inconclusive"] += 1
             for v in classify(prop, res, inst):
                 rep.report(v)
             if len(samples) < 6 and inst.get("q_src") and (len(samples) < 3 or inst["op"] not in [s["op"] for s in samples]):
